@@ -136,7 +136,12 @@ def run(model, col, tier):
     col.check(r in ([f"{ps.args.args[0].arg}.encode('utf-8')"], [f"{ps.args.args[0].arg}.encode()"], [f"{ps.args.args[0].arg}.encode('utf8')"]), "R19.3", f"{WA}::PackString",
               "names are UTF-8 encoded", f"names are encoded as {r}", WA, ps)
     ex = model.cls(WA, "Export").own_method("WriteTo")
-    col.check(any(isinstance(c, ast.Call) and last_attr(c) == "WriteString" for c in ast.walk(ex)), "R19.3", f"{WA}::Export.WriteTo uses WriteString", "export names go through WriteString", None, WA, ex)
+    tex = Terms(model, ex)
+    oex = tex.out(ex.args.args[1].arg)
+    named = bool(oex) and (oex[0][0] == "name" or (len(oex) >= 2 and oex[0][0] == "leb" and oex[1][0] == "bytes" and oex[0][1] == f"len({oex[1][1]})" and not oex[0][2]
+                                                     and tex.resolve(oex[1][1]).startswith("PackString(")))
+    col.check(named, "R19.3", f"{WA}::Export.WriteTo uses WriteString", "the export name is written as uleb(byte length) + UTF-8 bytes (WriteString, or the same spelled out)",
+              f"the export entry starts with {[(i[0], i[1]) for i in oex[:2]]}: not a length-prefixed UTF-8 name", WA, ex)
     check_encoder_shape(model, col, "R19.4")
     # ---------------- R19.5 the encoder is a function of its arguments -------------------
     # no module- or class-level container in nsl/WebAssembly.py is written after import (a memo keyed by value would hand the
